@@ -4,11 +4,11 @@
    character boundary, no arithmetic underflow, no unwrap of None, no unreachable!() -- and
    re-establishes J. *)
 From RL Require Import UData Uax29 LineBuffer LineBufferOps LineBufferProofs LineBufferTotal LineBufferAll
-     Undo KillRing History Render Keys Editor EditorRun EditorProofs UndoProofs UndoEditor KillRingProofs HistoryProofs.
+     LineBufferGrow Undo KillRing History Render Keys Editor EditorRun EditorProofs UndoProofs UndoEditor KillRingProofs HistoryProofs.
 
 Definition kr_inv (k : killring) : Prop := kr_ok k /\ (kr_last k = KAKill -> kr_slots k <> []).
 Definition saved_ok (s : est) : Prop := bd (fst (e_saved s)) (snd (e_saved s)).
-Definition J (s : est) : Prop := wf (e_line s) /\ I s /\ kr_inv (e_kr s) /\ saved_ok s.
+Definition J (s : est) : Prop := wf (e_line s) /\ I s /\ kr_inv (e_kr s) /\ saved_ok s /\ grow (e_line s) = true.
 
 (* what a yank-pop relies on: the ring remembers a yank whose text ends at the cursor *)
 Definition yank_ok (s : est) : Prop :=
@@ -29,7 +29,7 @@ Definition quiet {A} (m : E A) : Prop :=
 
 Lemma core_eq_J s s' : core_eq s s' -> J s -> J s'.
 Proof.
-  intros [L [C [K S]]] [Hw [Hi [Hk Hs]]]. unfold J, I, saved_ok in *. rewrite L, C, K, S. split; [exact Hw|split; [exact Hi|split; [exact Hk|exact Hs]]].
+  intros [L [C [K S]]] [Hw [Hi [Hk [Hs Hg]]]]. unfold J, I, saved_ok in *. rewrite L, C, K, S. split; [exact Hw|split; [exact Hi|split; [exact Hk|split; [exact Hs|exact Hg]]]].
 Qed.
 Lemma np_of_quiet {A} (m : E A) : quiet m -> np m.
 Proof. intros H s HJ. specialize (H s). unfold npr. destruct (m s); auto. eapply core_eq_J; eauto. Qed.
@@ -133,51 +133,51 @@ Section NoPanic.
   (* ---------- the three ways a line-buffer operation runs inside the editor ---------- *)
 
   Lemma np_lb_changes_at {A} (m : M A) s :
-    J s -> (exists a b' ev, m (e_line s) = Ok (a, b', ev) /\ wf b') -> good m -> npr s (lb_changes U m s).
+    J s -> (exists a b' ev, m (e_line s) = Ok (a, b', ev) /\ wf b') -> good m -> kg m -> npr s (lb_changes U m s).
   Proof.
-    intros HJ [a [b' [ev [Hm Hw']]]] Hg. pose proof HJ as [Hw [Hi [Hk Hs]]].
+    intros HJ [a [b' [ev [Hm Hw']]]] Hg Hkg. pose proof (proj1 (Hkg _ _ _ _ Hm)) as Hgb. pose proof HJ as [Hw [Hi [Hk [Hs Hgr]]]].
     pose proof (pres_lb_changes U m Hg s) as Hpres. unfold lb_changes in *. unfold ebind at 1 in Hpres. unfold ebind at 1.
     cbn [eget] in *. rewrite Hm in *. cbn [ebind set_line upd_line set_changes eret] in *.
-    unfold npr. split; [exact Hw'|]. split; [eapply Hpres; [exact Hi|reflexivity]|]. split; [exact Hk|exact Hs].
+    unfold npr. split; [exact Hw'|]. split; [eapply Hpres; [exact Hi|reflexivity]|]. split; [exact Hk|split; [exact Hs|cbn; rewrite Hgb; exact Hgr]].
   Qed.
-  Lemma np_lb_changes {A} (m : M A) : total_wf m -> good m -> np (lb_changes U m).
-  Proof. intros Ht Hg s HJ. apply np_lb_changes_at; [exact HJ|apply Ht; apply HJ|exact Hg]. Qed.
+  Lemma np_lb_changes {A} (m : M A) : total_wf m -> good m -> kg m -> np (lb_changes U m).
+  Proof. intros Ht Hg Hkg s HJ. apply np_lb_changes_at; [exact HJ|apply Ht; apply HJ|exact Hg|exact Hkg]. Qed.
 
   Lemma np_lb_quiet_at {A} (m : M A) s :
-    J s -> (exists a b' ev, m (e_line s) = Ok (a, b', ev) /\ wf b') -> pure m -> npr s (lb_quiet m s).
+    J s -> (exists a b' ev, m (e_line s) = Ok (a, b', ev) /\ wf b') -> pure m -> kg m -> npr s (lb_quiet m s).
   Proof.
-    intros HJ [a [b' [ev [Hm Hw']]]] Hp. pose proof HJ as [Hw [Hi [Hk Hs]]].
+    intros HJ [a [b' [ev [Hm Hw']]]] Hp Hkg. pose proof (proj1 (Hkg _ _ _ _ Hm)) as Hgb. pose proof HJ as [Hw [Hi [Hk [Hs Hgr]]]].
     unfold lb_quiet. unfold ebind at 1. cbn [eget]. rewrite Hm. cbn [ebind set_line upd_line eret]. unfold eret.
     destruct (Hp _ _ _ _ Hm) as [Hb _].
     unfold npr, J, I, saved_ok in *. cbn [e_line e_kr e_saved e_changes]. rewrite Hb.
-    split; [exact Hw'|]. split; [exact Hi|]. split; [exact Hk|exact Hs].
+    split; [exact Hw'|]. split; [exact Hi|]. split; [exact Hk|split; [exact Hs|rewrite Hgb; exact Hgr]].
   Qed.
-  Lemma np_lb_quiet {A} (m : M A) : total_wf m -> pure m -> np (lb_quiet m).
-  Proof. intros Ht Hp s HJ. apply np_lb_quiet_at; [exact HJ|apply Ht; apply HJ|exact Hp]. Qed.
+  Lemma np_lb_quiet {A} (m : M A) : total_wf m -> pure m -> kg m -> np (lb_quiet m).
+  Proof. intros Ht Hp Hkg s HJ. apply np_lb_quiet_at; [exact HJ|apply Ht; apply HJ|exact Hp|exact Hkg]. Qed.
 
-  Lemma np_lb_kill {A} (m : M A) : total_wf m -> good m -> np (lb_kill U m).
+  Lemma np_lb_kill {A} (m : M A) : total_wf m -> good m -> kg m -> np (lb_kill U m).
   Proof.
-    intros Ht Hg s HJ. pose proof HJ as [Hw [Hi [Hk Hs]]].
-    destruct (Ht _ Hw) as [a [b' [ev [Hm Hw']]]].
+    intros Ht Hg Hkg s HJ. pose proof HJ as [Hw [Hi [Hk [Hs Hgr]]]].
+    destruct (Ht _ Hw) as [a [b' [ev [Hm Hw']]]]. pose proof (proj1 (Hkg _ _ _ _ Hm)) as Hgb.
     pose proof (pres_lb_kill U m Hg s) as Hpres. unfold lb_kill in *. unfold ebind at 1 in Hpres. unfold ebind at 1.
     cbn [eget] in *. rewrite Hm in *. destruct (kr_notify_all_inv ev _ Hk) as [k' [Hn Hk']]. rewrite Hn in *.
     cbn [ebind set_line upd_line set_changes set_kr eret] in *.
-    unfold npr. split; [exact Hw'|]. split; [eapply Hpres; [exact Hi|reflexivity]|]. split; [exact Hk'|exact Hs].
+    unfold npr. split; [exact Hw'|]. split; [eapply Hpres; [exact Hi|reflexivity]|]. split; [exact Hk'|split; [exact Hs|cbn; rewrite Hgb; exact Hgr]].
   Qed.
 
   Lemma np_changes_begin : np changes_begin.
   Proof.
-    intros s HJ. pose proof HJ as [Hw [Hi [Hk Hs]]]. pose proof (pres_changes_begin s) as Hp.
+    intros s HJ. pose proof HJ as [Hw [Hi [Hk [Hs Hgr]]]]. pose proof (pres_changes_begin s) as Hp.
     unfold changes_begin in *. unfold ebind at 1 in Hp. unfold ebind at 1. cbn [eget] in *.
     destruct (cs_begin (e_changes s)) as [c mark]. cbn [ebind set_changes eret] in *.
-    unfold npr. split; [exact Hw|]. split; [eapply Hp; [exact Hi|reflexivity]|]. split; [exact Hk|exact Hs].
+    unfold npr. split; [exact Hw|]. split; [eapply Hp; [exact Hi|reflexivity]|]. split; [exact Hk|split; [exact Hs|exact Hgr]].
   Qed.
   Lemma np_changes_end : np changes_end.
   Proof.
-    intros s HJ. pose proof HJ as [Hw [Hi [Hk Hs]]]. pose proof (pres_changes_end s) as Hp.
+    intros s HJ. pose proof HJ as [Hw [Hi [Hk [Hs Hgr]]]]. pose proof (pres_changes_end s) as Hp.
     unfold changes_end in *. unfold ebind at 1 in Hp. unfold ebind at 1. cbn [eget] in *.
     destruct (cs_end (e_changes s)) as [c t]. cbn [ebind set_changes eret] in *.
-    unfold npr. split; [exact Hw|]. split; [eapply Hp; [exact Hi|reflexivity]|]. split; [exact Hk|exact Hs].
+    unfold npr. split; [exact Hw|]. split; [eapply Hp; [exact Hi|reflexivity]|]. split; [exact Hk|split; [exact Hs|exact Hgr]].
   Qed.
 
   (* a fact about the line survives steps that keep the line *)
@@ -213,14 +213,14 @@ Section NoPanic.
     intros r. destruct r; [apply pure_bind; [apply pure_put|intros; apply pure_ret]|apply pure_ret].
   Qed.
 
-  Lemma np_moved m : total_wf m -> pure m -> np (moved U cfg m).
+  Lemma np_moved m : total_wf m -> pure m -> kg m -> np (moved U cfg m).
   Proof.
-    intros Ht Hp. unfold moved. apply np_bind; [apply np_lb_quiet; assumption|]. intros r. destruct r; np_q.
+    intros Ht Hp Hkg. unfold moved. apply np_bind; [apply np_lb_quiet; assumption|]. intros r. destruct r; np_q.
   Qed.
 
   Lemma np_edit_insert ch n : np (edit_insert U cfg ch n).
   Proof.
-    unfold edit_insert. apply np_bind; [apply np_lb_changes; [apply insert_total|apply good_insert]|].
+    unfold edit_insert. apply np_bind; [apply np_lb_changes; [apply insert_total|apply good_insert|apply kg_insert]|].
     intros r. np_q.
   Qed.
 
@@ -228,16 +228,16 @@ Section NoPanic.
   Proof.
     unfold edit_yank. apply np_bind.
     { destruct a; [|np_q]. apply np_bind; [|intros; np_q].
-      apply np_lb_quiet; [apply move_forward_total; apply seg_concat'|apply pure_move_forward]. }
-    intros _. apply np_bind; [apply np_lb_changes; [apply yank_total|apply good_yank]|]. intros r.
+      apply np_lb_quiet; [apply move_forward_total; apply seg_concat'|apply pure_move_forward|apply kg_move_forward]. }
+    intros _. apply np_bind; [apply np_lb_changes; [apply yank_total|apply good_yank|apply kg_yank]|]. intros r.
     destruct r; [|np_q]. apply np_bind; [|intros; np_q].
     destruct (is_emacs cfg); [np_q|]. apply np_bind; [|intros; np_q].
-    apply np_lb_quiet; [apply move_backward_total; apply seg_concat'|apply pure_move_backward].
+    apply np_lb_quiet; [apply move_backward_total; apply seg_concat'|apply pure_move_backward|apply kg_move_backward].
   Qed.
 
   Lemma np_edit_kill m : np (edit_kill U cfg m).
   Proof.
-    unfold edit_kill. apply np_bind; [apply np_lb_kill; [apply kill_total; [apply seg_concat'|apply seg_nonempty']|apply good_kill]|].
+    unfold edit_kill. apply np_bind; [apply np_lb_kill; [apply kill_total; [apply seg_concat'|apply seg_nonempty']|apply good_kill|apply kg_kill]|].
     intros r. destruct r; np_q.
   Qed.
 
@@ -248,14 +248,14 @@ Section NoPanic.
     pose proof (np_lb_changes_at (insert_str (pos (e_line s)) (c :: t)) s HJ) as H.
     assert (Hpre : exists a b' ev, insert_str (pos (e_line s)) (c :: t) (e_line s) = Ok (a, b', ev) /\ wf b').
     { apply (insert_str_total (pos (e_line s)) (c :: t)). destruct HJ as [Hw _]. repeat split; [exact Hw|exact Hw|lia]. }
-    specialize (H Hpre (good_insert_str _ _)). unfold npr in H.
+    specialize (H Hpre (good_insert_str _ _) (kg_insert_str _ _)). unfold npr in H.
     destruct (lb_changes U (insert_str (pos (e_line s)) (c :: t)) s) as [a s'| | |]; auto.
     apply (np_of_quiet _ q_refresh_line). exact H.
   Qed.
 
-  Lemma np_grouped m : total_wf m -> good m -> np (grouped U cfg m).
+  Lemma np_grouped m : total_wf m -> good m -> kg m -> np (grouped U cfg m).
   Proof.
-    intros Ht Hg. unfold grouped. apply np_bind; [apply np_changes_begin|]. intros _.
+    intros Ht Hg Hkg. unfold grouped. apply np_bind; [apply np_changes_begin|]. intros _.
     apply np_bind; [apply np_lb_changes; assumption|]. intros r.
     apply np_bind; [apply np_changes_end|]. intros _. destruct r; np_q.
   Qed.
@@ -263,11 +263,11 @@ Section NoPanic.
   Lemma np_edit_replace_char ch n : np (edit_replace_char U cfg ch n).
   Proof.
     unfold edit_replace_char. apply np_bind; [apply np_changes_begin|]. intros _.
-    apply np_bind; [apply np_lb_changes; [apply delete_total; apply seg_concat'|apply good_delete]|]. intros r.
+    apply np_bind; [apply np_lb_changes; [apply delete_total; apply seg_concat'|apply good_delete|apply kg_delete]|]. intros r.
     apply np_bind.
     - destruct r; [|np_q].
-      apply np_bind; [apply np_lb_changes; [apply insert_total|apply good_insert]|]. intros _.
-      apply np_bind; [apply np_lb_quiet; [apply move_backward_total; apply seg_concat'|apply pure_move_backward]|].
+      apply np_bind; [apply np_lb_changes; [apply insert_total|apply good_insert|apply kg_insert]|]. intros _.
+      apply np_bind; [apply np_lb_quiet; [apply move_backward_total; apply seg_concat'|apply pure_move_backward|apply kg_move_backward]|].
       intros _. np_q.
     - intros ok. apply np_bind; [apply np_changes_end|]. intros _. destruct ok; np_q.
   Qed.
@@ -284,7 +284,7 @@ Section NoPanic.
     assert (Hpre : exists a b' ev, replace (pos (e_line s)) e [ch] (e_line s) = Ok (a, b', ev) /\ wf b').
     { apply (replace_total (pos (e_line s)) e [ch]). split; [exact Hw|]. split; [|lia].
       rewrite Hb, Hr, He, app_assoc, <- blen_app. apply bd_mid. }
-    specialize (H Hpre (good_replace _ _ _)). unfold npr in H.
+    specialize (H Hpre (good_replace _ _ _) (kg_replace _ _ _)). unfold npr in H.
     destruct (lb_changes U (replace (pos (e_line s)) e [ch]) s) as [a s'| | |]; auto.
     apply (np_of_quiet _ q_refresh_line). exact H.
   Qed.
@@ -294,8 +294,8 @@ Section NoPanic.
     unfold complete_hint_line. intros s HJ. unfold ebind at 1. cbn [eget]. destruct (e_hint s) as [text|]; [|cbn; exact HJ].
     revert s HJ. change (np (edo _ <- lb_quiet move_end; edo r <- lb_changes U (yank text 1);
                              (match r with None => beep | Some _ => eret tt end) ;;; refresh_line U cfg)).
-    apply np_bind; [apply np_lb_quiet; [apply move_end_total|apply pure_move_end]|]. intros _.
-    apply np_bind; [apply np_lb_changes; [apply yank_total|apply good_yank]|]. intros r.
+    apply np_bind; [apply np_lb_quiet; [apply move_end_total|apply pure_move_end|apply kg_move_end]|]. intros _.
+    apply np_bind; [apply np_lb_changes; [apply yank_total|apply good_yank|apply kg_yank]|]. intros r.
     apply np_bind; [destruct r; np_q|]. intros _. np_q.
   Qed.
 
@@ -318,7 +318,7 @@ Section NoPanic.
     specialize (H (move_to_line_up_total seg seg_concat' seg_nonempty' _ _ _)).
     assert (Hp : pure (move_to_line_up seg (layout_w U) n (p_col (l_prompt_size (e_layout s))))).
     { unfold LineBuffer.move_to_line_up. pure_a. }
-    specialize (H Hp s HJ). unfold npr in H. unfold Editor.seg. fold seg.
+    specialize (H Hp (kg_move_to_line_up _ _ _ _) s HJ). unfold npr in H. unfold Editor.seg. fold seg.
     destruct (lb_quiet (move_to_line_up seg (layout_w U) n (p_col (l_prompt_size (e_layout s)))) s) as [r s'| | |]; auto.
     destruct r; [|exact H]. apply np_at_bind. pose proof (np_of_quiet _ q_move_cursor s' H) as H2. unfold npr in H2.
     destruct (move_cursor U cfg s'); auto.
@@ -330,7 +330,7 @@ Section NoPanic.
     specialize (H (move_to_line_down_total seg seg_concat' seg_nonempty' _ _ _)).
     assert (Hp : pure (move_to_line_down seg (layout_w U) n (p_col (l_prompt_size (e_layout s))))).
     { unfold LineBuffer.move_to_line_down. pure_a. }
-    specialize (H Hp s HJ). unfold npr in H. unfold Editor.seg. fold seg.
+    specialize (H Hp (kg_move_to_line_down _ _ _ _) s HJ). unfold npr in H. unfold Editor.seg. fold seg.
     destruct (lb_quiet (move_to_line_down seg (layout_w U) n (p_col (l_prompt_size (e_layout s)))) s) as [r s'| | |]; auto.
     destruct r; [|exact H]. apply np_at_bind. pose proof (np_of_quiet _ q_move_cursor s' H) as H2. unfold npr in H2.
     destruct (move_cursor U cfg s'); auto.
@@ -338,15 +338,15 @@ Section NoPanic.
 
   Lemma np_backup : np backup.
   Proof.
-    intros s [Hw [Hi [Hk Hs]]]. unfold backup, ebind, eget, set_saved, npr.
-    split; [exact Hw|]. split; [exact Hi|]. split; [exact Hk|exact Hw].
+    intros s [Hw [Hi [Hk [Hs Hgr]]]]. unfold backup, ebind, eget, set_saved, npr.
+    split; [exact Hw|]. split; [exact Hi|]. split; [exact Hk|split; [exact Hw|exact Hgr]].
   Qed.
 
   Lemma np_restore : np (restore U).
   Proof.
     intros s HJ. unfold restore. unfold ebind at 1. cbn [eget].
-    apply np_lb_changes_at; [exact HJ| |apply good_update].
-    destruct HJ as [Hw [_ [_ Hs]]]. apply (update_total _ _ Hs). exact Hw.
+    apply np_lb_changes_at; [exact HJ| |apply good_update|apply kg_update].
+    destruct HJ as [Hw [_ [_ [Hs _]]]]. apply (update_total _ _ Hs). exact Hw.
   Qed.
 
   Lemma np_recall entry p :
@@ -354,7 +354,7 @@ Section NoPanic.
     np (edo _ <- changes_begin; lb_changes U (update entry p) ;;; edo _ <- changes_end; refresh_line U cfg).
   Proof.
     intros Hp. apply np_bind; [apply np_changes_begin|]. intros _.
-    apply np_bind; [apply np_lb_changes; [exact (update_total _ _ Hp)|apply good_update]|]. intros _.
+    apply np_bind; [apply np_lb_changes; [exact (update_total _ _ Hp)|apply good_update|apply kg_update]|]. intros _.
     apply np_bind; [apply np_changes_end|]. intros _. np_q.
   Qed.
 
@@ -454,6 +454,34 @@ Section NoPanic.
       (eapply Hstep; [eapply change_undo_wf; exact E|exact H]).
   Qed.
 
+  Lemma change_undo_grow ch b b' : change_undo ch b = Ok b' -> grow b' = grow b.
+  Proof.
+    destruct ch as [| |idx text|idx text|idx old new]; cbn [change_undo]; try discriminate.
+    - destruct (delete_range idx (idx + blen text) b) as [[[x b1] ev]|] eqn:E; [|discriminate].
+      intros H; inversion H; subst. apply (kg_delete_range _ _ _ _ _ _ E).
+    - destruct (insert_str idx text b) as [[[x b1] ev]|] eqn:E; [|discriminate].
+      destruct (set_pos (idx + blen text) b1) as [[[y b2] ev2]|] eqn:E2; [|discriminate].
+      intros H; inversion H; subst. rewrite (proj1 (kg_set_pos _ _ _ _ _ E2)). apply (kg_insert_str _ _ _ _ _ _ E).
+    - destruct (replace idx (idx + blen new) old b) as [[[x b1] ev]|] eqn:E; [|discriminate].
+      intros H; inversion H; subst. apply (kg_replace _ _ _ _ _ _ _ E).
+  Qed.
+
+  Lemma cs_undo_loop_grow : forall undos b n count waiting undone u b' d,
+    cs_undo_loop undos b n count waiting undone = Ok (u, b', d) -> grow b' = grow b.
+  Proof.
+    induction undos as [|ch rest IH]; intros b n count waiting undone u b' d H; cbn [cs_undo_loop] in H.
+    { inversion H; subst. reflexivity. }
+    assert (Hstep : forall b1 w1 u1, grow b1 = grow b ->
+              (if (w1 <=? 0)%Z then if Nat.leb n (S count) then Ok (rest, b1, u1) else cs_undo_loop rest b1 n (S count) w1 u1
+               else cs_undo_loop rest b1 n count w1 u1) = Ok (u, b', d) -> grow b' = grow b).
+    { intros b1 w1 u1 Hg1 H1. rewrite <- Hg1. destruct (w1 <=? 0)%Z.
+      - destruct (Nat.leb n (S count)); [inversion H1; subst; reflexivity|eapply IH; eauto].
+      - eapply IH; eauto. }
+    destruct ch; try (eapply Hstep; [reflexivity|exact H]);
+      match type of H with context [change_undo ?c b] => destruct (change_undo c b) as [b1|] eqn:E; [|discriminate] end;
+      (eapply Hstep; [eapply change_undo_grow; exact E|exact H]).
+  Qed.
+
   Lemma np_undo n : np (edo s <- eget;
                         match cs_undo (e_changes s) (e_line s) n with
                         | Panic => epanic
@@ -461,20 +489,23 @@ Section NoPanic.
                           set_changes c' ;;; set_line b' ;;; (if undone then refresh_line U cfg else eret tt) ;;; eret Proceed
                         end).
   Proof.
-    intros s HJ. pose proof HJ as [Hw [Hi [Hk Hs]]]. unfold ebind at 1. cbn [eget].
+    intros s HJ. pose proof HJ as [Hw [Hi [Hk [Hs Hgr]]]]. unfold ebind at 1. cbn [eget].
     destruct (undo_total (e_changes s) (e_line s) n Hi) as [c' [b' [d [Hu Hv]]]]. rewrite Hu.
     assert (Hw' : wf b').
     { unfold cs_undo in Hu. destruct (cs_undo_loop (cs_undos (e_changes s)) (e_line s) n 0 0%Z false) as [[[u b1] d1]|] eqn:E; [|discriminate].
       inversion Hu; subst. eapply cs_undo_loop_wf; [exact Hw|exact E]. }
+    assert (Hg' : grow b' = true).
+    { unfold cs_undo in Hu. destruct (cs_undo_loop (cs_undos (e_changes s)) (e_line s) n 0 0%Z false) as [[[u b1] d1]|] eqn:E; [|discriminate].
+      inversion Hu; subst. rewrite (cs_undo_loop_grow _ _ _ _ _ _ _ _ _ E). exact Hgr. }
     apply np_at_bind. cbn [set_changes]. apply np_at_bind. cbn [set_line upd_line].
-    match goal with |- npr ?s1 _ => assert (HJ1 : J s1) by (split; [exact Hw'|split; [exact Hv|split; [exact Hk|exact Hs]]]) end.
+    match goal with |- npr ?s1 _ => assert (HJ1 : J s1) by (split; [exact Hw'|split; [exact Hv|split; [exact Hk|split; [exact Hs|exact Hg']]]]) end.
     apply np_apply; [|exact HJ1]. apply np_bind; [destruct d; np_q|]. intros _. np_q.
   Qed.
 
   (* ---------- kill ring steps ---------- *)
 
   Lemma np_set_kr k : kr_inv k -> np (set_kr k).
-  Proof. intros Hk s [Hw [Hi [_ Hs]]]. cbn. split; [exact Hw|split; [exact Hi|split; [exact Hk|exact Hs]]]. Qed.
+  Proof. intros Hk s [Hw [Hi [_ [Hs Hgr]]]]. cbn. split; [exact Hw|split; [exact Hi|split; [exact Hk|split; [exact Hs|exact Hgr]]]]. Qed.
 
   Lemma kr_yank_inv k : kr_inv k -> kr_inv (fst (kr_yank k)).
   Proof.
@@ -507,7 +538,7 @@ Section NoPanic.
     pose proof (np_lb_changes_at (yank_pop size text) s1 HJ1) as H2.
     assert (Hpre : exists a b' ev, yank_pop size text (e_line s1) = Ok (a, b', ev) /\ wf b').
     { apply (yank_pop_total size text). destruct HJ1 as [Hw1 _]. repeat split; assumption. }
-    specialize (H2 Hpre (good_yank_pop _ _)). unfold npr in H2.
+    specialize (H2 Hpre (good_yank_pop _ _) (kg_yank_pop _ _)). unfold npr in H2.
     destruct (lb_changes U (yank_pop size text) s1) as [r s2| | |]; auto.
     apply np_apply; [|exact H2]. apply np_bind; [destruct r; np_q|]. intros _.
     apply np_bind; [apply np_changes_end|]. intros _. np_q.
@@ -523,6 +554,11 @@ Section NoPanic.
           | apply move_to_next_word_total | apply move_to_total ]; seg_side.
   Ltac good_side :=
     first [ apply good_edit_word | apply good_transpose_chars | apply good_transpose_words | apply good_indent ].
+  Ltac kg_side :=
+    first [ apply kg_edit_word | apply kg_transpose_chars | apply kg_transpose_words | apply kg_indent
+          | apply kg_move_home | apply kg_move_end | apply kg_move_backward | apply kg_move_forward
+          | apply kg_move_buffer_start | apply kg_move_buffer_end | apply kg_move_to_prev_word
+          | apply kg_move_to_next_word | apply kg_move_to ].
   Ltac pure_side :=
     unfold LineBuffer.move_home, LineBuffer.move_end, LineBuffer.move_backward, LineBuffer.move_forward,
       LineBuffer.move_buffer_start, LineBuffer.move_buffer_end, LineBuffer.move_to_prev_word,
@@ -532,9 +568,9 @@ Section NoPanic.
           | apply np_complete_hint_line | apply np_edit_yank | apply np_edit_kill | apply np_edit_insert_text
           | apply np_edit_insert | apply np_edit_replace_char | apply np_edit_overwrite_char | apply np_line_up
           | apply np_line_down | apply np_restore | apply np_undo
-          | (apply np_grouped; [total_side|good_side])
-          | (apply np_lb_changes; [total_side|good_side])
-          | (apply np_moved; [total_side|pure_side; fail])
+          | (apply np_grouped; [total_side|good_side|kg_side])
+          | (apply np_lb_changes; [total_side|good_side|kg_side])
+          | (apply np_moved; [total_side|pure_side; fail|kg_side])
           | np_q ].
   Ltac np_all :=
     repeat (first [ np_known
@@ -604,7 +640,7 @@ Section NoPanic.
       cbn [snd]. intros H. inversion H; subst. exact Hy. }
     destruct (kr_yank_pop (e_kr s)) as [k' r]. cbn [fst snd] in *.
     apply np_at_bind. cbn [set_kr].
-    match goal with |- npr ?s1 _ => assert (HJ1 : J s1) by (destruct HJ as [Hw [Hi [_ Hs]]]; split; [exact Hw|split; [exact Hi|split; [exact Hk|exact Hs]]]) end.
+    match goal with |- npr ?s1 _ => assert (HJ1 : J s1) by (destruct HJ as [Hw [Hi [_ [Hs Hgr]]]]; split; [exact Hw|split; [exact Hi|split; [exact Hk|split; [exact Hs|exact Hgr]]]]) end.
     apply np_at_bind. destruct r as [[size text]|].
     - destruct (Hr size text eq_refl) as [Hle Hbd].
       pose proof (np_edit_yank_pop_at size text _ HJ1 Hle Hbd) as H. unfold npr in H.
@@ -650,7 +686,7 @@ Section NoPanic.
     kr_inv kr -> J (initial_state U cfg prompt history (kr_reset kr) inp).
   Proof.
     intros [Hok Hk]. split; [exists [], []; split; reflexivity|]. split; [apply initial_I|].
-    split; [split; [exact Hok|cbn; discriminate]|]. exact (bd_0 []).
+    split; [split; [exact Hok|cbn; discriminate]|]. split; [exact (bd_0 [])|reflexivity].
   Qed.
 
   (* any sequence of commands none of which is a yank-pop: no panic, J throughout *)
